@@ -385,6 +385,101 @@ fn nx16_case(flags: u8, src: &[u8]) -> Obs {
     roundtrip(&format!("nx16-f{flags:02x}"), src, || v::rans_nx16_encode(f, src), |e| v::rans_nx16_decode(e, n), false)
 }
 
+/// nxe: the real encoder's whole stream when the entropy stage is bypassed (CAT in the emitted
+/// flag byte), else which stage the data went to; verdict = self round trip
+fn nxe_case(flags: u8, src: &[u8]) -> Obs {
+    let f = rans_nx16::Flags::from(flags);
+    let n = src.len();
+    let what = format!("nx16-xform-f{flags:02x}");
+    let enc = match guarded(AssertUnwindSafe(|| v::rans_nx16_encode(f, src))) {
+        Outcome::Done(Ok(e)) => e,
+        Outcome::Done(Err(e)) => return Obs::fail("Err", &format!("{what}-encode-error"), format!("Err:{} len={n}", errkind(&e))),
+        Outcome::Panicked(m) => return Obs::fail("Panic", &format!("{what}-encode-panic"), format!("{m} len={n}")),
+    };
+    let obs = if flags & 0x08 != 0 {
+        "stripe".to_string()
+    } else if enc.first().is_some_and(|b| b & 0x20 != 0) {
+        long_obs(&enc)
+    } else {
+        "entropy".to_string()
+    };
+    match guarded(AssertUnwindSafe(|| v::rans_nx16_decode(&enc, n))) {
+        Outcome::Done(Ok(d)) if d == src => Obs::ok(obs, !src.is_empty()),
+        Outcome::Done(Ok(d)) => Obs::fail(obs, &format!("{what}-decode-mismatch"), format!("len={n} decoded_len={}", d.len())),
+        Outcome::Done(Err(e)) => Obs::fail(obs, &format!("{what}-decode-error"), format!("Err:{} len={n}", errkind(&e))),
+        Outcome::Panicked(m) => Obs::fail(obs, &format!("{what}-decode-panic"), format!("{m} len={n}")),
+    }
+}
+
+/// nxd: the real decoder on a stream (the encoder's, or a truncation of it); `expect` = the
+/// input the stream was made from ("-" for truncated streams, where only the observation counts)
+fn nxd_case(c: &Case) -> Obs {
+    let flags = c.u(0) as u8;
+    let usize_ = c.u(1) as usize;
+    let stream = c.b(2);
+    let expect = if c.args[3] == "-" { None } else { Some(c.b(3)) };
+    match guarded(AssertUnwindSafe(|| v::rans_nx16_decode(&stream, usize_))) {
+        Outcome::Done(Ok(d)) => {
+            let obs = long_obs(&d);
+            match expect {
+                Some(e) if e != d => Obs::fail(obs, &format!("nx16-xform-f{flags:02x}-decode-mismatch"), format!("len={}", e.len())),
+                Some(e) => Obs::ok(obs, !e.is_empty()),
+                None => Obs::ok(obs, false),
+            }
+        }
+        Outcome::Done(Err(e)) => match expect {
+            Some(x) => Obs::fail("Err", &format!("nx16-xform-f{flags:02x}-decode-error"), format!("Err:{} len={}", errkind(&e), x.len())),
+            None => Obs::ok("Err", false),
+        },
+        Outcome::Panicked(m) => match expect {
+            Some(x) => Obs::fail("Panic", &format!("nx16-xform-f{flags:02x}-decode-panic"), format!("{m} len={}", x.len())),
+            None => Obs::ok("Panic", false),
+        },
+    }
+}
+
+/// inputs for the transform cases: pack width classes (1, 2, 3..4, 5..16, 17+ symbols), runs of
+/// symbols inside and outside the RLE alphabet, every symbol with runs (RLE symbol count 0),
+/// lengths around the 4/32 state counts and the uint7 byte boundaries
+fn nxx_inputs(rng: &mut Rng, thorough: bool) -> Vec<Vec<u8>> {
+    let mut v: Vec<Vec<u8>> = vec![vec![], vec![5], vec![5, 5], vec![1, 2], vec![3, 3, 3], vec![1, 2, 3, 4], vec![7; 4], vec![7; 31], vec![7; 32], vec![7; 33], vec![0; 200], vec![255; 130]];
+    let runs = |rng: &mut Rng, syms: &[u8], n: usize, maxrun: u64| -> Vec<u8> {
+        let mut o = Vec::new();
+        while o.len() < n {
+            let s = *rng.pick(syms);
+            let r = 1 + rng.below(maxrun) as usize;
+            o.extend(std::iter::repeat(s).take(r.min(n - o.len())));
+        }
+        o
+    };
+    let reps = if thorough { 6 } else { 1 };
+    for _ in 0..reps {
+        for nsym in [2usize, 3, 4, 5, 9, 16, 17, 40] {
+            let base = *rng.pick(&[0u8, 1, 100, 200]);
+            let syms: Vec<u8> = (0..nsym).map(|i| base.wrapping_add((i * 3) as u8)).collect();
+            let n = rng.range(1, 300) as usize;
+            v.push((0..n).map(|_| *rng.pick(&syms)).collect());
+            let rn = rng.range(1, 400) as usize;
+            v.push(runs(rng, &syms, rn, 9));
+        }
+        // lengths around the state counts after packing / run-length coding
+        for n in [3usize, 4, 5, 7, 8, 9, 15, 16, 17, 31, 32, 33, 63, 64, 65, 127, 128, 129, 255, 256, 257] {
+            let syms: Vec<u8> = (0..rng.range(1, 5) as u8).map(|i| 60 + i).collect();
+            v.push((0..n).map(|_| *rng.pick(&syms)).collect());
+        }
+        // runs longer than 127 / 16383 (multi-byte run lengths), mixed with singletons
+        v.push(runs(rng, &[1, 2, 3], 1500, 400));
+        v.push(runs(rng, &[9, 200], 40_000, 20_000));
+        // every symbol in the RLE alphabet (symbol count byte 0) and almost every symbol
+        v.push((0..=255u8).flat_map(|s| std::iter::repeat(s).take(3)).collect());
+        v.push((0..=254u8).flat_map(|s| std::iter::repeat(s).take(2 + (s as usize % 3))).collect());
+        // literal stream crossing a uint7 boundary
+        v.push(rng.bytes(16_400));
+        v.push((0..16_500usize).map(|i| if i % 2 == 0 { 4 } else { 5 + (rng.below(3) as u8) }).collect());
+    }
+    v
+}
+
 fn aac_case(flags: u8, src: &[u8]) -> Obs {
     let f = aac::Flags::from(flags);
     let n = src.len();
@@ -763,6 +858,33 @@ fn generate(rng: &mut Rng, tier: &str, w: &mut CaseWriter) {
         r4_inputs.push(shaped(&mut r0, "under4x8", 0));
         r4_inputs.push(shaped(&mut r0, "zmax4x8", 0));
     }
+    // order 1 (modelled: encoder output compared byte for byte): every length 4..=40 (all four
+    // remainders with 1..10 byte quarters), every context occurring (outer run of 255 rows), the
+    // contexts at the alphabet edges, separated groups of contexts (runs and singletons in the
+    // outer table), a pair that only occurs across a quarter boundary (counted, never coded)
+    for len in 4..=40usize {
+        let k = rng.range(1, 5) as u8;
+        let base = *rng.pick(&[0u8, 1, 65, 250]);
+        r4_inputs.push((0..len).map(|_| base.wrapping_add(rng.below(k as u64) as u8)).collect());
+    }
+    r4_inputs.push((0..=255u8).chain(0..=255u8).collect());
+    r4_inputs.push((0..=255u8).rev().chain(0..=255u8).chain(std::iter::repeat(7).take(37)).collect());
+    r4_inputs.push(vec![255, 254, 255, 255, 0, 0, 1, 255, 254, 254, 0, 1, 1, 0, 255]);
+    r4_inputs.push(vec![9, 9, 9, 9, 8, 9, 9, 9, 9, 9, 9, 9, 9, 9, 9, 9]);
+    for _ in 0..(4 * scale) {
+        let groups: [&[u8]; 4] = [&[10, 11, 12], &[20], &[30, 31], &[200, 201, 202, 203, 204]];
+        let len = rng.range(4, 600) as usize;
+        let mut v = Vec::with_capacity(len);
+        for _ in 0..len {
+            let g = *rng.pick(&groups);
+            v.push(*rng.pick(g));
+        }
+        r4_inputs.push(v);
+    }
+    if thorough {
+        r4_inputs.push(shaped(rng, "qual", 70_001));
+        r4_inputs.push(shaped(rng, "dominant", 131_075));
+    }
     for src in &r4_inputs {
         for order in [0u64, 1] {
             w.push("r4", vec![order.to_string(), hex(src)]);
@@ -802,6 +924,35 @@ fn generate(rng: &mut Rng, tier: &str, w: &mut CaseWriter) {
             let len = gen_len(rng, if thorough { 6000 } else { 1500 });
             w.push("aac", vec![f.to_string(), hex(&shaped(rng, shape, len))]);
         }
+    }
+
+    // ---- rANS Nx16 transforms (modelled): flags byte, PACK, RLE, CAT and the fall-backs
+    {
+        let inputs = nxx_inputs(rng, thorough);
+        let flagsets = all_subsets(&[0x01, 0x04, 0x10, 0x20, 0x40, 0x80]);
+        for (fi, &f) in flagsets.iter().enumerate() {
+            for (ii, src) in inputs.iter().enumerate() {
+                // flags with CAT: every input; others: a rotating third (mostly "entropy")
+                let small = src.len() <= 600;
+                if f & 0x20 == 0 && (ii + fi) % 3 != 0 {
+                    continue;
+                }
+                if !small && (ii + fi) % 4 != 0 && !thorough {
+                    continue;
+                }
+                w.push("nxe", vec![f.to_string(), hex(src)]);
+                if let Outcome::Done(Ok(enc)) = guarded(AssertUnwindSafe(|| v::rans_nx16_encode(rans_nx16::Flags::from(f), src))) {
+                    if enc.first().is_some_and(|b| b & 0x20 != 0) && small {
+                        w.push("nxd", vec![f.to_string(), src.len().to_string(), hex(&enc), hex(src)]);
+                        if enc.len() > 1 && (ii + fi) % 2 == 0 {
+                            let cut = rng.range(1, enc.len() as u64 - 1) as usize;
+                            w.push("nxd", vec![f.to_string(), src.len().to_string(), hex(&enc[..cut]), "-".into()]);
+                        }
+                    }
+                }
+            }
+        }
+        w.push("nxe", vec!["8".into(), hex(b"noodles")]);
     }
 
     // ---- fqzcomp
@@ -869,6 +1020,8 @@ fn run(c: &Case) -> Obs {
         "r4d" => r4d_case(c),
         "nx16" => nx16_case(c.u(0) as u8, &c.b(1)),
         "aac" => aac_case(c.u(0) as u8, &c.b(1)),
+        "nxe" => nxe_case(c.u(0) as u8, &c.b(1)),
+        "nxd" => nxd_case(c),
         "fqz" => {
             let lens: Vec<usize> = if c.args[0] == "_" { vec![] } else { c.args[0].split(',').map(|x| x.parse().unwrap()).collect() };
             fqz_case(&lens, &c.b(1))
